@@ -206,7 +206,7 @@ pub fn typed(p: &Parts) -> (String, Verdict) {
     let r: (&str, Result<ArrayData, String>) = match &p.dt {
         Null => return na("NullArray"),
         Boolean => {
-            if nb != 1 { return na("BooleanArray::new"); }
+            if nb != 1 || nc != 0 { return na("BooleanArray::new"); }
             let (b, o, l) = (p.buffers[0].clone(), p.offset, p.len);
             let r = match typed_nulls(p) {
                 Err(e) => Err(e),
@@ -215,7 +215,7 @@ pub fn typed(p: &Parts) -> (String, Verdict) {
             ("BooleanBuffer::new+BooleanArray::new", r)
         }
         FixedSizeBinary(n) => {
-            if nb != 1 { return na("FixedSizeBinaryArray::try_new_with_len"); }
+            if nb != 1 || nc != 0 { return na("FixedSizeBinaryArray::try_new_with_len"); }
             let n = *n;
             let w = n.max(0) as usize;
             let r = match (typed_nulls(p), p.offset.checked_mul(w)) {
@@ -231,17 +231,17 @@ pub fn typed(p: &Parts) -> (String, Verdict) {
             };
             ("Buffer::slice_with_length+FixedSizeBinaryArray::try_new_with_len", r)
         }
-        Utf8 if nb == 2 => ("OffsetBuffer::new+GenericByteArray::try_new", bytes::<Utf8Type>(p)),
-        LargeUtf8 if nb == 2 => ("OffsetBuffer::new+GenericByteArray::try_new", bytes::<LargeUtf8Type>(p)),
-        Binary if nb == 2 => ("OffsetBuffer::new+GenericByteArray::try_new", bytes::<BinaryType>(p)),
-        LargeBinary if nb == 2 => ("OffsetBuffer::new+GenericByteArray::try_new", bytes::<LargeBinaryType>(p)),
-        Utf8View if nb >= 1 => ("GenericByteViewArray::try_new", views::<StringViewType>(p)),
-        BinaryView if nb >= 1 => ("GenericByteViewArray::try_new", views::<BinaryViewType>(p)),
+        Utf8 if nb == 2 && nc == 0 => ("OffsetBuffer::new+GenericByteArray::try_new", bytes::<Utf8Type>(p)),
+        LargeUtf8 if nb == 2 && nc == 0 => ("OffsetBuffer::new+GenericByteArray::try_new", bytes::<LargeUtf8Type>(p)),
+        Binary if nb == 2 && nc == 0 => ("OffsetBuffer::new+GenericByteArray::try_new", bytes::<BinaryType>(p)),
+        LargeBinary if nb == 2 && nc == 0 => ("OffsetBuffer::new+GenericByteArray::try_new", bytes::<LargeBinaryType>(p)),
+        Utf8View if nb >= 1 && nc == 0 => ("GenericByteViewArray::try_new", views::<StringViewType>(p)),
+        BinaryView if nb >= 1 && nc == 0 => ("GenericByteViewArray::try_new", views::<BinaryViewType>(p)),
         List(f) if nb == 1 && nc == 1 => ("OffsetBuffer::new+GenericListArray::try_new", list::<i32>(p, f)),
         LargeList(f) if nb == 1 && nc == 1 => ("OffsetBuffer::new+GenericListArray::try_new", list::<i64>(p, f)),
         ListView(f) if nb == 2 && nc == 1 => ("GenericListViewArray::try_new", list_view::<i32>(p, f)),
         LargeListView(f) if nb == 2 && nc == 1 => ("GenericListViewArray::try_new", list_view::<i64>(p, f)),
-        FixedSizeList(f, n) if nc == 1 && p.offset == 0 => {
+        FixedSizeList(f, n) if nc == 1 && nb == 0 && p.offset == 0 => {
             let r = match (typed_nulls(p), child_array(&p.children[0])) {
                 (Err(e), _) | (_, Err(e)) => Err(e),
                 (Ok(nulls), Ok(values)) => {
@@ -251,7 +251,7 @@ pub fn typed(p: &Parts) -> (String, Verdict) {
             };
             ("FixedSizeListArray::try_new_with_length", r)
         }
-        Struct(fs) if p.offset == 0 => {
+        Struct(fs) if p.offset == 0 && nb == 0 => {
             let kids: Result<Vec<ArrayRef>, String> = p.children.iter().map(child_array).collect();
             let r = match (typed_nulls(p), kids) {
                 (Err(e), _) | (_, Err(e)) => Err(e),
@@ -275,7 +275,8 @@ pub fn typed(p: &Parts) -> (String, Verdict) {
             };
             ("OffsetBuffer::new+MapArray::try_new", r)
         }
-        Dictionary(k, _) if nb == 1 && nc == 1 => (
+        // DictionaryArray::try_new derives the value type from the values array
+        Dictionary(k, v) if nb == 1 && nc == 1 && p.children[0].data_type() == v.as_ref() => (
             "PrimitiveArray::try_new+DictionaryArray::try_new",
             match k.as_ref() {
                 Int8 => dict::<Int8Type>(p),
@@ -289,7 +290,8 @@ pub fn typed(p: &Parts) -> (String, Verdict) {
                 _ => return na("DictionaryArray::try_new"),
             },
         ),
-        RunEndEncoded(rf, _) if nc == 2 && nb == 0 && p.null_buf.is_none() => {
+        RunEndEncoded(rf, vf) if nc == 2 && nb == 0 && p.null_buf.is_none()
+            && p.children[0].data_type() == rf.data_type() && p.children[1].data_type() == vf.data_type() => {
             // RunArray::try_new derives the length from the last run end and has no offset
             let r = match rf.data_type() {
                 Int16 => run::<Int16Type>(p),
